@@ -29,6 +29,8 @@ func c09Gen(r *rand.Rand, tier string) []spec.Case {
 		add("mux", "accept-at-expiry:"+s)
 		add("mux", "staggered-dials-then-accept:"+s)
 		add("grpc", "staggered-dials-then-accept:"+s)
+		add("grpc", "accept-twice:"+s)
+		add("grpcmux", "accept-twice:"+s)
 	}
 	// random histories of length 2-4 (the stale-knock step of grpcmux only in its dedicated single-step cases above)
 	n := 12
@@ -42,7 +44,7 @@ func c09Gen(r *rand.Rand, tier string) []spec.Case {
 			pool = append(pool, "accept-at-expiry", "dial-timeout-then-accept", "staggered-dials-then-accept")
 		}
 		if k == "grpc" {
-			pool = append(pool, "dial-timeout-then-accept")
+			pool = append(pool, "dial-timeout-then-accept", "accept-twice")
 		}
 		m := 2 + r.Intn(3)
 		var steps []string
